@@ -24,6 +24,10 @@ class Inconclusive(Exception):
     """A construct the evaluator does not model; the rule instance is inconclusive (never a violation)."""
 
 
+class ReinterpretCast(Inconclusive):
+    """The code views an object through a reinterpreting cast (byte view / address as integer)."""
+
+
 class Obj:
     __slots__ = ("type", "f")
 
@@ -819,7 +823,7 @@ class Evaluator:
         if ck in ("ToVoid",):
             return None
         if ck in ("BitCast", "PointerToIntegral", "IntegralToPointer", "LValueBitCast", "ReinterpretMemberPointer"):
-            raise Inconclusive("reinterpreting cast " + ck)
+            raise ReinterpretCast("reinterpreting cast " + ck)
         if ck == "Dependent":
             raise Inconclusive("dependent cast")
         return v
@@ -1065,6 +1069,8 @@ class Evaluator:
                 items = items + [fv] * (n - len(items))
             return Arr(items)
         if t.startswith("std::array<"):
+            if len(items) == 1 and isinstance(items[0], Obj) and items[0].type == t:
+                return items[0]
             if len(items) == 1 and isinstance(items[0], Arr):
                 return Obj(t, {"_M_elems": items[0]})
             if len(items) == 0:
